@@ -240,7 +240,15 @@ theorem aux_runSteps_reachable (f : Sem) (j : Job) (cl : Cluster) : ∀ (l : Lis
 
 /-- **The literal reading of "unanswered" fails for transfers** (harmlessly): a dataset is queued for purging — and is
 purged at the source in the next `flush_queues` — while the notice of a transfer commanded from that source has not yet
-reached the controller. The transfer itself has been performed: `c04_queued_purge_io_done`. -/
+reached the controller. The transfer itself has been performed: `c04_queued_purge_io_done`.
+
+Verdict (re-audit C04 #1): this IS a failure of clause (c) of the property text as written ("never drops it while a transfer …
+it commanded from that host is still unanswered" — the answer of a transfer is its notice reaching the controller); it is
+recorded as known finding `C04-purge-before-transfer-notice` (signature kind = purge-before-transfer-notice, transfer =
+performed-and-stored-at-target), the provable part is `c04_queued_purge_io_done` / `c04_purge_io_done`, the witness
+corpus/Ctrl_c04_late_transfer_notice.json must reproduce on the real controller in every run of the check. "Harmless" rests on
+the hand-over to C07 (a purge at the source after the copy is stored at the target disturbs no send), which is stated, not
+composed in Lean. -/
 theorem c04_transfer_notice_full_fails :
     ¬ (∀ (f : Sem) (j : Job) (cl : Cluster) (s : Sys), WF j cl → Reachable f j cl s →
         ∀ ds, ds ∈ s.ctl.purgeQ → ∀ tgt, Event.pubT tgt ds ∉ s.allEv) := by
